@@ -10,6 +10,8 @@ from sc3.base.clock import SystemClock
 
 
 def f(x):
+    if x == '-0':
+        return -0.0
     return None if x is None else float(Fraction(x))
 
 
